@@ -37,6 +37,7 @@ type c13Ctx struct {
 	ntag     int
 	resp     map[string]*RespPlan
 	hold     bool
+	graceful bool // the client has sent GOAWAY(NO_ERROR): probes stay on existing streams
 	big      bool // the server was configured to advertise SETTINGS_HEADER_TABLE_SIZE = 8192
 	forceTSU bool
 }
@@ -177,6 +178,13 @@ func buildProbe(t *rapid.T, x *c13Ctx, k int) *probe {
 	case 18:
 		return &probe{Name: "WINDOW_UPDATE overflowing a stream window", Kind: "stream", Stream: x.half, Codes: cFC, Frames: []Frame{WindowUpdateFrame(x.half, 0x7fffffff)}}
 	case 19:
+		if !x.graceful && drawBool(t, "selfdepidle", 50) {
+			// ... on an idle stream well above every stream in use: a stream error for that id,
+			// which uses up no stream identifier - requests on the ids below it stay legal
+			// (the draw loop sends one right behind)
+			idle := x.next + 60
+			return &probe{Name: "PRIORITY depending on itself, on an idle stream", Kind: "stream", Stream: idle, Codes: cP, Frames: []Frame{PriorityFrame(idle, PrioParam{Dep: idle, Weight: 1})}}
+		}
 		return &probe{Name: "PRIORITY depending on itself", Kind: "stream", Stream: x.half, Codes: cP, Frames: []Frame{PriorityFrame(x.half, PrioParam{Dep: x.half, Weight: 1})}}
 	case 20:
 		return &probe{Name: "PRIORITY with length 4", Kind: "stream", Stream: x.half, Codes: cFS, OrConn: cFS, Frames: []Frame{{Type: FPriority, Stream: x.half, Payload: []byte{0, 0, 0, 1}}}}
@@ -433,6 +441,7 @@ func drawC13(t *rapid.T) *Case {
 	}
 	// probes
 	n := rapid.IntRange(1, 4).Draw(t, "nprobes")
+	x.graceful = graceful
 	usedHalf, usedOpen, usedAck := false, false, false
 	for i := 0; i < n; i++ {
 		k := rapid.IntRange(0, 31).Draw(t, "probe")
@@ -465,6 +474,11 @@ func drawC13(t *rapid.T) *Case {
 		}
 		aux.Probes = append(aux.Probes, pr)
 		write(pr.Frames...)
+		if k == 19 && !graceful && pr.Stream != x.half {
+			pr2 := buildProbe(t, x, 11)
+			aux.Probes = append(aux.Probes, pr2)
+			write(pr2.Frames...)
+		}
 		if x.big && !graceful && k >= 22 && k <= 29 && drawBool(t, "tsuaftermalformed", 70) {
 			// right behind a request refused for a malformed field: a well-formed request whose
 			// block opens with a table size update - the decoder must be back at "start of a
